@@ -24,6 +24,13 @@ FULL STATEMENT (properties.jsonl): for every well-typed program and input, every
 namespace C02
 open Interp Typing
 
+/- `HasTy` / `StackTy` / `WF` below are the judgements of the generic development (class `Interp.Mode`, Proofs/InterpTyping.lean)
+at the Michelson typing rules: `HasTy v t` is `Typing.checkVal false v t = true` (`hasTy_is_checkVal`). -/
+local instance : Mode := Mode.lax
+
+/-- what `HasTy` means in this file -/
+theorem hasTy_is_checkVal (v : Val) (t : Ty) : HasTy v t ↔ Typing.checkVal false v t = true := Iff.rfl
+
 /-- **type preservation (reference semantics)**: a well-typed instruction run on a stack of the input type
 ends with a stack whose every slot is a well-formed value of exactly the statically assigned type. -/
 theorem preservation (env : Env) (fuel : Nat) (i : Instr) (st st' : List Val) (ts : List Ty) (tr : TRes)
@@ -79,6 +86,20 @@ theorem welltyped_run_preserves_types (env : Env) (fuel : Nat) (i : Instr) (st s
   have hwf : ∀ v ∈ st, WellFormed v := fun v hv => ⟨hw v hv, hgood v hv⟩
   rw [C01.welltyped_run_eq_reference env fuel i st tr hty hwf hlit hg] at hrun
   obtain ⟨ts', h1, h2⟩ := preservation env fuel i st st' _ tr hst hty hrun
+  exact ⟨ts', h1, h2, h2.map_typeOf⟩
+
+/-- **the pytezos machine, strictly typed programs — static hypotheses only**: for a program accepted by the strict
+typing rules (`typeInstr true`: MAP bodies keep the element type; well-formed literals) on strictly well-typed input
+values, every final slot of the machine has exactly the statically assigned type.  No guard: C01's
+`strict_guard_never_fires`. -/
+theorem strict_run_preserves_types (env : Env) (fuel : Nat) (i : Instr) (st st' : List Val) (tr : TRes)
+    (hty : typeInstr true i (st.map typeOf) = some tr) (hwf : ∀ v ∈ st, C01.StrictWF v) (hlit : literalsOk i = true)
+    (hrun : Impl.run env fuel i st = .ok st') :
+    ∃ ts', tr = .ok ts' ∧ StackTy st' ts' ∧ st'.map typeOf = ts' := by
+  rw [C01.strict_run_eq_reference env fuel i st tr hty hwf hlit] at hrun
+  have hst : StackTy st (st.map typeOf) :=
+    stackTy_iff.mpr ⟨fun v hv => (C01.strictWF_wellFormed v (hwf v hv)).1, rfl⟩
+  obtain ⟨ts', h1, h2⟩ := preservation env fuel i st st' _ tr hst (C01.strict_typing_is_typing i _ tr hty) hrun
   exact ⟨ts', h1, h2, h2.map_typeOf⟩
 
 /-- a program typed as always failing (FAILWITH in tail position) never returns a stack -/
@@ -176,5 +197,11 @@ example : typeInstr false (.CAST .int) [.nat] = none := by rfl
 example : ∀ v ∈ [mPair], litOk v = true := by simp [mPair, litOk, litOks, simpleComparable]
 example : literalsOk (.MAP .CDR) = true := by rfl
 example : typeInstr false (.MAP .CDR) [.map (.pair .int .int) .int] = some (.ok [.map (.pair .int .int) .int]) := by rfl
+
+-- non-vacuity of `strict_run_preserves_types`: MAP { CDR } over `map (pair int int) int` keeps the element type, so it is
+-- strictly typed; the program of the open finding (a MAP body that turns timestamps into ints) is typed but not strictly
+example : typeInstr true (.MAP .CDR) [.map (.pair .int .int) .int] = some (.ok [.map (.pair .int .int) .int]) := by rfl
+example : ∀ v ∈ [mPair], C01.StrictWF v := by simp [mPair, C01.StrictWF, checkVal, checkVals, typeOf, litOk, litOks, simpleComparable]
+example : typeInstr true (.seq [.NIL .timestamp, .MAP (.seq [.DROP, .PUSH .int (.num .int 0)])]) [] = none := by rfl
 
 end C02
